@@ -20,6 +20,7 @@ SIM_B_PROPS = ["C01", "C02", "C03", "C04", "C09"]
 
 # runs per tier (quick: on every change; thorough: as deep as built), wall budget in seconds
 BUDGET = {
+    "C16": {"quick": (2400, 110), "thorough": (200000, 1100)},
     "C09": {"quick": (2400, 100), "thorough": (120000, 1100)},
     "C01": {"quick": (1600, 110), "thorough": (60000, 1100)},
     "C02": {"quick": (1600, 110), "thorough": (60000, 1100)},
@@ -167,7 +168,7 @@ def replay_file(binary, path):
     return r.returncode, rec
 
 
-def handle_violations(binary, prop, seed, records, opens, max_minimise=6):
+def handle_violations(binary, prop, seed, records, opens, max_minimise=6, payload="scenario"):
     """Returns (violation_lines, known_lines, n_viol_runs, details)."""
     by_class = collections.OrderedDict()
     for r in records:
@@ -187,7 +188,7 @@ def handle_violations(binary, prop, seed, records, opens, max_minimise=6):
         # an unlisted violation: write replay file, minimise, confirm, report (first of the class)
         r, x = items[0]
         raw = os.path.join(VERIF, "replay", "%s-%d-%d.raw.json" % (prop, seed, r["run"]))
-        json.dump({"property": prop, "invariant": inv, "class": cls, "violation": x, "scenario": r["scenario"], "seed": seed, "run": r["run"]}, open(raw, "w"), indent=1)
+        json.dump({"property": prop, "invariant": inv, "class": cls, "violation": x, payload: r[payload], "seed": seed, "run": r["run"]}, open(raw, "w"), indent=1)
         final = os.path.join(VERIF, "replay", "%s-%d-%d.json" % (prop, seed, r["run"]))
         env = env_offline({"LD_PRELOAD": SHIM})
         ok_min = False
@@ -316,6 +317,7 @@ def check_sim_b(prop, tier, seed, level_rule):
 
 
 RULES = {
+    "C16": "one run = one (VERIF_SEED, run index): catalogue and instance, 6-11 queries (corpus of 40 shapes incl. joins of every kind, USING/NATURAL, CTEs, derived tables, set operations, DISTINCT, HAVING, CASE keys, ORDER BY/LIMIT/OFFSET, quoted identifiers, casts, random()) plus seeded aggregation queries, 1-4 caller threads with 3-12 operations each (parse, render twice, re-parse, DP / privacy-unit rewriting as background load, counter burns, unnamed builds, reset(), cold threads, caller abandonment), one shuttle schedule (random or PCT, seeded) and one hash seed. A quiescent single-threaded pass right after reset() gives the reference (relation, text, rendered SQL, schema) and decides the schedule-independent fixpoint sentence (re-parse succeeds, same schema, same rows on three... one seeded instance of the simulated engine); every Parse/Render/Reparse of the concurrent history is compared with it. A second family of runs replays histories single-threaded under other hash seeds and compares logs. Non-trivial = the history ran (every run). Distinct = distinct (thread count, scheduler, set of operation kinds, query-kind mix) tuples; distinct interleavings (hash of the global order of thread steps) are counted separately.",
     "C02": "one run = one (VERIF_SEED, run index): scenario mixing protected, public and synthetic tables, aggregation queries and plain projections (which must be refused or redirected). (a) the returned relation is executed under 15 forced schedules of the engine's noise draws on D and under 3 of them on D minus one privacy unit (up to 3 units); every output column that depends on the removed rows must depend on the noise schedule. (b) on the same compile, every derivation the public rule pipeline returns with an acceptable root label is walked: no Public/Published/Synthetic-labelled node may reach a protected table (not redirected to its twin) without crossing a DifferentiallyPrivate-labelled aggregation. Non-trivial = the compile ran to a verdict (accepted or refused). Distinct = distinct (privacy-unit kind, FROM shape, key shape, aggregate set, synthetic/plain, outcome class: data-dependent / noise-only / constant / refused).",
     "C04": "one run = one (VERIF_SEED, run index): grouped query with at least one key column that has no publicly declared value set, instance with singleton keys, units alone in more than Cu groups, one unit holding a key in many rows. The rewritten query is executed under forced schedules of the engine's random source: threshold noise zero (released => more than tau_required distinct holding units, counted by the harness's own ownership tables), threshold noise placing the effective threshold at 1.5 / 2.5 / 4.5, and - when some unit is the only holder of more than Cu keys - six capping-draw schedules (2 seeded, quantised ties, constant, increasing, decreasing) with every candidate key forced out (at most Cu of a lone unit's keys may appear); tau and sigma literals are compared with the values required by the reserved share. Non-trivial = compile accepted and key release present (or a surely private key released without it). Distinct = distinct (privacy-unit kind, key shape, cap exercised or idle, singleton keys present, something released, Cu class).",
     "C03": "one run = one (VERIF_SEED, run index): generated scenario as for C01. The applied mechanisms are read from the rewritten IR (sigma literal per noised column, clip constant traced through the scale-factor map; tau and sigma of the key release) and cross-checked through the engine seam (every Gaussian draw forced to +-c*sigma must move each un-clamped cell by exactly that); they are then matched injectively against the entries of the returned DpEvent and budgeted with the classical calibration at the best delta split. Non-trivial = compile accepted and at least one randomised mechanism in the rewriting. Distinct = distinct (privacy-unit kind, FROM shape, key shape, aggregate set, number of Gaussian / threshold mechanisms, epsilon above or below 1, history class).",
@@ -324,7 +326,157 @@ RULES = {
 }
 
 
+def check_sim_a(tier, seed):
+    prop = "C16"
+    t0 = time.time()
+    if not build_a():
+        return 2
+    total, budget_s = BUDGET[prop][tier]
+    log("%s %s: seed=%d runs=%d workers=%d" % (prop, tier, seed, total, NPROC))
+    outdir = os.path.join(WORK, prop)
+    records, bad = run_workers(BIN_A, prop, seed, total, budget_s * 0.7, outdir)
+    if bad:
+        for w, code, err in bad:
+            log("HARNESS-ERROR: worker %s exited with %s: %s" % (w, code, err[-600:]))
+        return 2
+    if not records:
+        log("HARNESS-ERROR: no runs completed")
+        return 2
+    # hash-seed sweep: single-threaded replays of the first histories under other hash seeds
+    n_sweep = min(len(records), 96 if tier == "quick" else 4096)
+    salts = [1, 2] if tier == "quick" else [1, 2, 3, 4]
+    sweep = {}
+    for salt in salts:
+        recs, bad2 = run_workers(BIN_A, prop, seed, n_sweep, budget_s * 0.15, os.path.join(WORK, prop + "-sweep%d" % salt), ["--hash-salt", str(salt), "--single-thread", "--samples", "0"])
+        if bad2:
+            for w, code, err in bad2:
+                log("HARNESS-ERROR: sweep worker %s exited with %s: %s" % (w, code, err[-600:]))
+            return 2
+        sweep[salt] = {r["run"]: r for r in recs}
+    main_by_run = {r["run"]: r for r in records}
+    sweep_compared = 0
+    for run in sorted(sweep[salts[0]].keys()):
+        ds = set()
+        refs = set([main_by_run[run]["ref_digest"]]) if run in main_by_run else set()
+        for salt in salts:
+            if run in sweep[salt]:
+                ds.add(sweep[salt][run]["digest"])
+                refs.add(sweep[salt][run]["ref_digest"])
+        sweep_compared += 1
+        if len(ds) > 1 or len(refs) > 1:
+            # report through the ordinary path: attach a violation to the main record
+            r = main_by_run.get(run) or sweep[salts[0]][run]
+            if r.get("workload") is None:
+                # regenerate with its workload kept
+                rr, _ = run_workers(BIN_A, prop, seed, run + 1, 60, os.path.join(WORK, prop + "-one"), ["--samples", "1000000"])
+                r = [x for x in rr if x["run"] == run][0]
+                main_by_run[run] = r
+                records = [x if x["run"] != run else r for x in records]
+            v = {"property": prop, "invariant": "hash_seed_dependence", "class": "unclassified",
+                 "detail": "the single-threaded history of run %d gives different Parse/Render logs or reference tables under different hash seeds (log digests %s, reference digests %s)" % (run, sorted(ds), sorted(refs)),
+                 "witness": {"run": run, "salts": salts}}
+            if r["verdict"] == "Ok":
+                r["verdict"] = {"Violations": [v]}
+            else:
+                r["verdict"]["Violations"].append(v)
+    opens, fixed = load_known()
+    vlines, klines, n_viol_runs, details, known_seen = handle_violations(BIN_A, prop, seed, records, opens, payload="workload")
+    ok = sum(1 for r in records if r["verdict"] == "Ok")
+    shapes = set(r["shape"] for r in records if r.get("shape"))
+    inter = set(r["stats"]["interleaving"] for r in records if len(r["shape"].split("|")[0]) and r["shape"].split("|")[0] != "k1")
+    faults, probes = collections.Counter(), collections.Counter()
+    ops = events = 0
+    for r in records:
+        for k, v in r["stats"]["faults"].items():
+            faults[k] += v
+        for k, v in r["stats"]["probes"].items():
+            probes[k] += v
+        ops += r["stats"]["ops"]
+        events += r["stats"]["events"]
+    faults["hash_seed_sweep_replays"] = sweep_compared * len(salts)
+    wall = time.time() - t0
+    samples = []
+    for r in records:
+        if r.get("workload") and r["verdict"] == "Ok" and len(samples) < 2:
+            w = json.loads(json.dumps(r["workload"]))
+            w["sc"] = trim_scenario(w["sc"], 3)
+            samples.append({"run": r["run"], "verdict": "Ok", "shape": r["shape"], "interleaving": r["stats"]["interleaving"], "workload": w})
+    if not samples:
+        samples.append({"run": records[0]["run"], "shape": records[0]["shape"], "tags": records[0]["tags"]})
+    unlisted = sum(1 for l in vlines if l)
+    evidence = {
+        "property_id": prop, "tier": tier, "seed": seed, "level": "exploration",
+        "coverage": {
+            "evaluations": len(records) + sweep_compared * len(salts),
+            "distinct_nontrivial": len(shapes),
+            "rule": RULES[prop],
+            "samples": samples,
+            "concurrent_histories": len(records),
+            "distinct_interleavings_multi_thread": len(inter),
+            "hash_seed_sweep": {"histories": sweep_compared, "hash_seeds_per_history": len(salts) + 1},
+            "runs_per_hour": int(len(records) / max(wall, 1e-9) * 3600),
+            "seeds": {"VERIF_SEED": seed, "run_indices": [0, max(r["run"] for r in records)], "runs_completed": len(records), "runs_planned": total},
+            "logical_time": {"operations_executed": ops, "history_events": events, "note": "no simulated wall-clock exists in this system; logical time is operations and scheduler-ordered events"},
+            "faults_fired": dict(faults),
+            "probes": dict(probes),
+            "known_findings_seen": known_seen,
+            "violation_classes": details,
+            "components": {
+                "real": ["qrlew parser, Relation builders, visitors, namer (the shipped count()/reset()/name_from_content bodies), rendering, DP and privacy-unit rewriting as background load"],
+                "stub": ["shuttle::sync::Mutex in place of std's for the name counter, shuttle::thread_local for the per-thread implementation tables, verif_point preemption / abandonment points (all behind --cfg qrlew_verif)", "getrandom(2) shim owning RandomState keys", "Sim-B's SQLite engine and translator seam for the re-parse semantics sub-check"],
+            },
+            "workers": NPROC,
+        },
+        "assumptions": [
+            "sampling of schedules, histories and hash seeds: evidence, not proof",
+            "interleavings are decided only at shuttle primitives and verif_points; address-derived nondeterminism (ASLR) is not owned",
+        ],
+        "wall_s": round(wall, 2),
+        "violations": unlisted,
+    }
+    json.dump(evidence, open(os.path.join(VERIF, "evidence", prop + ".json"), "w"), indent=1)
+    log("%s: %d concurrent histories (%d distinct shapes, %d distinct multi-thread interleavings), %d hash-seed replays" % (prop, len(records), len(shapes), len(inter), sweep_compared * len(salts)))
+    log("faults fired: %s" % dict(faults))
+    log("probes: %s" % dict(probes))
+    for l in klines:
+        print(l, flush=True)
+    harness_err = any(l is None for l in vlines)
+    for l in vlines:
+        if l:
+            print(l, flush=True)
+    if harness_err:
+        return 2
+    if unlisted:
+        return 1
+    if len(shapes) < 2:
+        log("HARNESS-ERROR: fewer than 2 distinct histories; nothing was decided")
+        return 2
+    log("%s: held on everything explored (%.1fs)" % (prop, wall))
+    return 0
+
+
 def do_replay(prop, path):
+    if prop == "C16":
+        if not build_a():
+            return 2
+        code, rec = replay_file(BIN_A, path)
+        if rec is None:
+            log("HARNESS-ERROR: replay produced no record")
+            return 2
+        v = rec["verdict"]
+        if isinstance(v, dict) and "Violations" in v:
+            for x in v["Violations"]:
+                log("replayed violation: %s / %s: %s" % (x["invariant"], x["class"], x["detail"][:500]))
+            opens, _ = load_known()
+            oc = set(o.get("class") for o in opens if o.get("property") == prop)
+            if all(x["class"] in oc for x in v["Violations"]):
+                for x in v["Violations"]:
+                    print("KNOWN-FINDING: property=%s class=%s" % (prop, x["class"]), flush=True)
+                return 0
+            print("VIOLATION property=%s replay=%s" % (prop, path), flush=True)
+            return 1
+        log("replay: %s" % (v,))
+        return 0
     if prop in SIM_B_PROPS:
         if not build_b():
             return 2
@@ -336,6 +488,12 @@ def do_replay(prop, path):
         if isinstance(v, dict) and "Violations" in v:
             for x in v["Violations"]:
                 log("replayed violation: %s / %s: %s" % (x["invariant"], x["class"], x["detail"][:500]))
+            opens, _ = load_known()
+            oc = set(o.get("class") for o in opens if o.get("property") == prop)
+            if all(x["class"] in oc for x in v["Violations"]):
+                for x in v["Violations"]:
+                    print("KNOWN-FINDING: property=%s class=%s" % (prop, x["class"]), flush=True)
+                return 0
             print("VIOLATION property=%s replay=%s" % (prop, path), flush=True)
             return 1
         log("replay: %s" % (v,))
@@ -369,6 +527,8 @@ def main(argv):
         return 0 if ok else 2
     if replay:
         return do_replay(cmd, replay)
+    if cmd == "C16":
+        return check_sim_a(tier, seed)
     if cmd in SIM_B_PROPS:
         if cmd not in RULES:
             log("check for %s not built yet" % cmd)
